@@ -53,6 +53,12 @@ MEMBERS = [
      ("deep__scan{s}", [("level", "pos")])),
     ("    def start{s}_(self, count: int = 1) -> int:\n        '''Differs from an inherited name only by a trailing underscore.'''\n        return count\n",
      ("start{s}_", [("count", "opt")])),
+    ("    def blank_doc{s}(self, n: int = 0) -> int:\n        '''   '''\n        return n\n",
+     ("blank_doc{s}", [("n", "opt")])),
+    ("    def empty_doc{s}(self) -> int:\n        ''''''\n        return 1\n",
+     ("empty_doc{s}", [])),
+    ("    @property\n    def blank_prop{s}(self) -> int:\n        ''' '''\n        return 2\n",
+     ("blank_prop{s}", [])),
     ("    def shift_by{s}(self, amount: int, /, times: int = 1) -> int:\n        '''Positional-only parameter.'''\n        return amount * times\n",
      ("shift_by{s}", [("amount", "pos"), ("times", "opt")])),
     ("    def ratio_of{s}(self, part: float, whole: float = 1.0) -> float:\n        '''Ratio.'''\n        return part / whole\n",
@@ -73,7 +79,7 @@ def decode(data: bytes) -> dict:
         case["postponed"] = d.p(0.5)
         case["depth"] = d.i(1, 2)      # subclass of a subclass
     r = d.i(0, 9)
-    case["width"] = d.i(1, 39) if r < 3 else d.i(201, 1000) if r < 5 else d.pick([10 ** 5, 2 ** 31, 10 ** 9]) if r == 5 else d.i(40, 200)
+    case["width"] = None if r == 9 and d.p(0.5) else d.i(1, 39) if r < 3 else d.i(201, 1000) if r < 5 else d.pick([10 ** 5, 2 ** 31, 10 ** 9]) if r == 5 else d.i(40, 200)
     case["name"] = d.pick([None, None, "P", "my-pool", "x_1"])
     if d.p(0.3):
         case["extra"] = {"foo": d.i(0, 9)}
@@ -101,7 +107,7 @@ def build_class(case: dict):
         if entry is not None:
             table[entry[0].format(s=s)] = entry[1]
             m = re.search(r"\'\'\'(.+?)\'\'\'", tmpl)
-            if m and "setter" not in tmpl:
+            if m and m.group(1).strip() and "setter" not in tmpl:
                 docs[entry[0].format(s=s)] = m.group(1)
         else:
             private.append(re.search(r"def (_\w+)", tmpl.format(s=s)).group(1))  # type: ignore[union-attr]
@@ -130,13 +136,13 @@ class C16Engine(Engine):
             "subclass, or width < 40 or > 200. Distinct = case hash.")
     assumptions = ["the session is driven in-process through a real asyncio.StreamReader and a recording writer (vt/ctl/harness.py)",
                    "API table written from the documentation, independent of inspect.getmembers"]
-    bounds = {"widths": "1..1000", "generated members": "<=4 of 16 templates", "subclass depth": "<=2"}
+    bounds = {"widths": "1..1000", "generated members": "<=4 of 19 templates", "subclass depth": "<=2"}
 
     def strategies(self, tier: str):
         return [("default", st.binary(min_size=NB, max_size=NB).map(decode), 1200 if tier == "quick" else 30000)]
 
     def nontrivial(self, case: dict, out: dict) -> bool:
-        return "members" in case or case["width"] < 40 or case["width"] > 200
+        return "members" in case or case["width"] is None or case["width"] < 40 or case["width"] > 200
 
     def floors(self):
         return {"class:generated": 0.2, "class:TaskPool": 0.15, "class:SimpleTaskPool": 0.15}
@@ -158,7 +164,7 @@ class C16Engine(Engine):
                 if k == "extra":
                     c.pop("extra")
                 out.append(c)
-        if case["width"] != 80:
+        if case["width"] is not None and case["width"] != 80:
             c = copy.deepcopy(case)
             c["width"] = 80
             out.append(c)
